@@ -499,16 +499,32 @@ def sqrt (a : D128R) : Option D128 :=
   | .inf false => none
   | _ => none
 
-/-- `FeelNumber::even` (`number.rs:112`): `is_zero(remainder(self, 2))` -/
-def even (a : D128R) : Bool :=
+/-- `FeelNumber::is_integer` (`number.rs:133`, fix 5501a2e): finite and `trunc(x) = x` — the
+*value* is integral, whatever the exponent -/
+def isInteger (a : D128R) : Bool :=
   match a with
-  | .fin d => (D128.remainder d ⟨false, 2, 0⟩).isZero
+  | .fin d => D128.cmp (D128.trunc d) d == .eq
   | _ => false
 
-/-- `FeelNumber::odd` (`number.rs:154`): `is_integer(self) && !is_zero(remainder(self, 2))` -/
+/-- `FeelNumber::even` (`number.rs:110`): the remainder by 2 is zero; when the remainder is not
+finite (the integer quotient needs more than 34 digits) the answer is `is_integer()` -/
+def even (a : D128R) : Bool :=
+  match a with
+  | .fin d =>
+    match D128.remainder d ⟨false, 2, 0⟩ with
+    | .fin r => r.coeff == 0
+    | _ => isInteger a
+  | _ => false
+
+/-- `FeelNumber::odd` (`number.rs:159`): `is_integer()`, and the remainder by 2 is finite and
+not zero -/
 def odd (a : D128R) : Bool :=
   match a with
-  | .fin d => D128.isInteger d && !(D128.remainder d ⟨false, 2, 0⟩).isZero
+  | .fin d =>
+    isInteger a &&
+      (match D128.remainder d ⟨false, 2, 0⟩ with
+       | .fin r => r.coeff != 0
+       | _ => false)
   | _ => false
 
 end FNum
